@@ -2,9 +2,9 @@
     computes with a square root is carried as a [surd] coef * sqrt(rad)).  [wf], [layers_wf],
     [edges_wf]: NamesAgree.v, Volume.v, ConnGeom.v.  Satisfiability of every hypothesis: the
     example_* theorems at the end (Witness.v). *)
-From Coq Require Import List Bool ZArith QArith Qminmax Permutation.
+From Coq Require Import Ascii String List Bool ZArith QArith Qminmax Permutation.
 From PTBase Require Import Exn PyStr.
-From P Require Import FromGeo Arith Lists NamesAgree Volume ConnGeom Witness.
+From P Require Import FromGeo Arith Lists NamesAgree Volume ConnGeom Decode Witness.
 Import ListNotations.
 Open Scope Q_scope.
 
@@ -56,6 +56,40 @@ Theorem fromgeo_conns_eq_name_list_no_map : forall g names,
     (NoDup cnl -> exists cs, fromgeo_conns g [] = Ok cs /\ map ckey cs = cnl).
 Proof. exact fromgeo_conns_names_nomap. Qed.
 Print Assumptions fromgeo_conns_eq_name_list_no_map.
+
+(** the distinctness hypotheses are exactly what is needed: a grid never holds two blocks of one
+    name nor two connections of one key *)
+Theorem fromgeo_blocks_eq_name_list_iff : forall g bm names,
+  wf g -> block_name_list g = Ok names ->
+  (NoDup (map (apply_map bm) names) <->
+   exists bl, fromgeo_blocks g bm = Ok bl /\ map bname bl = map (apply_map bm) names).
+Proof. exact fromgeo_blocks_names_iff. Qed.
+Print Assumptions fromgeo_blocks_eq_name_list_iff.
+
+Theorem fromgeo_conns_eq_name_list_iff : forall g bm names cnl,
+  wf g -> block_name_list g = Ok names -> NoDup (map (apply_map bm) names) ->
+  block_connection_name_list g = Ok cnl ->
+  (NoDup (map (map_pair bm) cnl) <->
+   exists cs, fromgeo_conns g bm = Ok cs /\ map ckey cs = map (map_pair bm) cnl).
+Proof. exact fromgeo_conns_names_iff. Qed.
+Print Assumptions fromgeo_conns_eq_name_list_iff.
+
+(** the [names_decode] clause of [wf] follows from name lengths that fit the convention and
+    [fix_blockname] leaving the composed names alone (third character not a digit) *)
+Theorem names_decode_sufficient : forall g,
+  (convention g <= 3)%nat ->
+  (forall l, In l (tl (layers g)) -> length (lname l) = lay_len (convention g)) ->
+  (forall c, In c (columns g) -> length (cname c) = col_len (convention g)) ->
+  (forall l c, In l (tl (layers g)) -> In c (columns g) ->
+     fix_blockname (raw_name (convention g) (lname l) (cname c)) = raw_name (convention g) (lname l) (cname c)) ->
+  names_decode g.
+Proof. exact names_decode_suff. Qed.
+Print Assumptions names_decode_sufficient.
+
+Theorem fix_blockname_untouched : forall n,
+  is_digit (nth 2 n " "%char) = false -> fix_blockname n = n.
+Proof. exact fix_blockname_id. Qed.
+Print Assumptions fix_blockname_untouched.
 
 (** ** volumes *)
 (** the code's case analysis of the block top is the specified one *)
